@@ -344,6 +344,20 @@ class Snapshot:
 # ==================================================================================================
 # object graphs
 # ==================================================================================================
+def _as_container(a, container):
+    """the same numbers as an ndarray of another dtype or as nested Python lists (the public constructors
+    accept `Union[np.ndarray, List]`)."""
+    if container == "int64":
+        return a.astype(np.int64)
+    if container == "float32":
+        return a.astype(np.float32)
+    if container == "list":
+        return a.tolist()
+    if container == "list_int":
+        return a.astype(np.int64).tolist()
+    return a
+
+
 def _arr(vals, shape=None, dtype=float):
     a = np.array([float(Fraction(v)) for v in vals], dtype=dtype)
     return a.reshape(shape) if shape is not None else a
@@ -424,24 +438,41 @@ def build_graph(b, upto=None, track=True) -> Graph:
             if st in ("Array2D", "Kernel2D"):
                 vals = _arr(b["values"], (h, w) if form == "native" else None)
             else:
-                vals = np.array([[float(Fraction(a)), float(Fraction(c))] for a, c in b["values"]])
+                vals = np.array([[float(Fraction(a)), float(Fraction(c))] for a, c in b["values"]],
+                                dtype=float).reshape(-1, 2)
                 if form == "native":
                     vals = vals.reshape(h, w, 2)
+            vals = _as_container(vals, b.get("container", "ndarray"))
+            use_no_mask = b.get("ctor") == "no_mask"
             g.add_input("values", vals)
             g.stage("Buffer", [], lambda: vals)                                      # 2
             if done():
                 raise StopBuild
-            if st == "Array2D":
+            if st == "Array2D" and use_no_mask:
+                # alternative constructor of the same functionality (the mask is all-unmasked)
+                g.stage("Array2D", [1, 2], lambda: aa.Array2D.no_mask(values=vals, pixel_scales=scales,
+                                                                       shape_native=(h, w), origin=origin))
+            elif st == "Array2D":
                 g.stage("Array2D", [1, 2], lambda: aa.Array2D(values=vals, mask=mask, store_native=sn))
+            elif st == "Kernel2D" and use_no_mask:
+                g.stage("Kernel2D", [1, 2], lambda: aa.Kernel2D.no_mask(values=vals, pixel_scales=scales,
+                                                                         shape_native=(h, w), origin=origin,
+                                                                         normalize=b.get("normalize", False)))
             elif st == "Kernel2D":
                 g.stage("Kernel2D", [1, 2], lambda: aa.Kernel2D(values=vals, mask=mask, store_native=sn,
                                                                  normalize=b.get("normalize", False)))
+            elif st == "Grid2D" and use_no_mask:
+                ov = aa.OverSamplingUniform(sub_size=b.get("sub", 1)) if b.get("sub") else None
+                g.stage("Grid2D", [1, 2], lambda: aa.Grid2D.no_mask(values=vals, pixel_scales=scales,
+                                                                     shape_native=(h, w), origin=origin,
+                                                                     over_sampling=ov))
             elif st == "Grid2D":
                 ov = aa.OverSamplingUniform(sub_size=b.get("sub", 1)) if b.get("sub") else None
                 g.stage("Grid2D", [1, 2], lambda: aa.Grid2D(values=vals, mask=mask, store_native=sn,
                                                              over_sampling=ov))
             elif st == "VectorYX2D":
-                gv = np.array([[float(Fraction(a)), float(Fraction(c))] for a, c in b["grid_values"]])
+                gv = np.array([[float(Fraction(a)), float(Fraction(c))] for a, c in b["grid_values"]],
+                              dtype=float).reshape(-1, 2)
                 if form == "native":
                     gv = gv.reshape(h, w, 2)
                 g.add_input("grid_values", gv)
@@ -451,7 +482,7 @@ def build_graph(b, upto=None, track=True) -> Graph:
                 raise ValueError(st)
             raise StopBuild
         # ---------------------------------------------------------------- dataset / inversion graphs
-        data_n = g.add_input("data", _arr(b["data"], (h, w)))
+        data_n = g.add_input("data", _as_container(_arr(b["data"], (h, w)), b.get("container", "ndarray")))
         noise_n = g.add_input("noise", _arr(b["noise"], (h, w)))
         kh, kw = b["psf_shape"]
         psf_n = g.add_input("psf", _arr(b["psf"], (kh, kw)))
@@ -752,6 +783,10 @@ def do_derive(obj, kind, g, build):
         return obj.real
     if how == "conj_like":
         return obj * (1 - 0j) if np.iscomplexobj(obj.array) else obj * 1.0
+    if how == "rewrap":
+        if kind == "Grid2D":
+            return aa.Grid2D(values=obj, mask=obj.mask, over_sampling=obj.over_sampling)
+        return type(obj)(values=obj, mask=obj.mask)
     if how == "native":
         return obj.native
     if how == "slim":
@@ -921,13 +956,18 @@ class FreshEval:
 def run_history(case):
     b = case["build"]
     pre = polluted_defaults()
-    g = build_graph(b)
+    try:
+        g = build_graph(b)
+    except Exception as e:
+        # a constructor that rejects a (degenerate) input is outside this property
+        raise Skip(f"graph cannot be built: {type(e).__name__}: {str(e)[:80]}")
     if pre:
         g.ctor_changed.insert(0, {"stage": -1, "kind": "(state left by earlier operations in this process)",
                                   "changed": pre})
     terms = [(i, []) for i in range(len(g.pool))]
     fresh = FreshEval(b)
     steps_out = []
+    poked = set()
     snap = Snapshot(g.inputs, g.pool)
     for st in case["history"]:
         o = st["obj"]
@@ -957,7 +997,7 @@ def run_history(case):
 
             out["value"] = safe_value(rd)
             root, path = terms[o]
-            out["fresh"] = fresh.value(root, path, st)
+            out["fresh"] = out["value"] if o in poked else fresh.value(root, path, st)
             if path and "v" in holder:
                 # derived object: consistency with its own contents, stated independently
                 exp = direct_expectation(obj, kind, st["key"])
@@ -975,6 +1015,18 @@ def run_history(case):
             out["_qargs_changed"] = sorted(f"input:query-arg:{nm}" for nm, (a, f0) in qargs.items() if fp_bytes(a) != f0)
             root, path = terms[o]
             out["fresh"] = fresh.value(root, path, st)
+        elif st["op"] == "poke":
+            # the CALLER rewrites its own input array after construction: constructors declared to copy their
+            # argument must be unaffected (every later read is still compared with the fresh-object value)
+            if isinstance(obj, np.ndarray):
+                if obj.dtype == bool:
+                    obj[...] = ~obj
+                else:
+                    np.multiply(obj, 2, out=obj, casting="unsafe")
+                    np.add(obj, 1, out=obj, casting="unsafe")
+                poked.add(o)
+            out["value"] = None
+            snap = Snapshot(g.inputs, g.pool)  # new baseline: the caller's own write is not the library's
         elif st["op"] == "derive":
             try:
                 new = do_derive(obj, kind, st["g"], b)
@@ -1107,6 +1159,8 @@ def _origin(rng):
 def _rand_submask(rng, m):
     """a mask with fewer (>=1) unmasked pixels than m (more True)."""
     un = [(y, x) for y in range(len(m)) for x in range(len(m[0])) if not m[y][x]]
+    if not un:
+        return [list(r) for r in m]
     keep = set(rng.sample(un, max(1, len(un) - rng.randint(1, max(1, len(un) // 2)))))
     return [[not ((y, x) in keep) for x in range(len(m[0]))] for y in range(len(m))]
 
@@ -1120,19 +1174,34 @@ def struct_build(rng, struct, m, form=None, store_native=None, uniform=None):
     b = {"graph": "structure", "struct": struct, "mask": mask_json(m), "scales": _scales(rng),
          "origin": _origin(rng), "form": form, "store_native": sn,
          "submasks": [mask_json(_rand_submask(rng, m)) for _ in range(2)]}
+    # round-3 hardening: ~35 % of the structures are built from integer / float32 ndarrays or Python lists,
+    # and all-unmasked ones partly through the `no_mask` classmethods
+    r = rng.random()
+    cont = ("ndarray" if r < 0.65 else "int64" if r < 0.75 else "list" if r < 0.85 else "list_int" if r < 0.92
+            else "float32")
+    if n == 0:
+        cont = "ndarray"  # an empty Python list cannot carry the (0, 2) shape of an empty grid
+    b["container"] = cont
+    ints = cont in ("int64", "list_int")
+    if n_un == h * w and struct in ("Array2D", "Kernel2D", "Grid2D") and rng.random() < 0.4:
+        b["ctor"] = "no_mask"
     if struct in ("Array2D", "Kernel2D"):
-        vals = [_dy(rng) for _ in range(n)]
+        vals = [Fraction(rng.randint(-8, 8)) for _ in range(n)] if ints else [_dy(rng) for _ in range(n)]
         if struct == "Kernel2D":
-            vals = [abs(v) + Fraction(1, 4) for v in vals]
+            vals = [abs(v) + (1 if ints else Fraction(1, 4)) for v in vals]
             b["normalize"] = rng.random() < 0.5
         b["values"] = [q(v) for v in vals]
     else:
+        if ints:
+            uniform = False
         if struct == "Grid2D" and (uniform if uniform is not None else rng.random() < 0.5):
             sy, sx = Fraction(b["scales"][0]), Fraction(b["scales"][1])
             oy, ox = Fraction(b["origin"][0]), Fraction(b["origin"][1])
             cells = [(y, x) for y in range(h) for x in range(w) if form == "native" or not m[y][x]]
             pts = [(-(Fraction(y) - Fraction(h - 1, 2)) * sy + oy, (Fraction(x) - Fraction(w - 1, 2)) * sx + ox)
                    for (y, x) in cells]
+        elif ints:
+            pts = [(Fraction(rng.randint(-8, 8)), Fraction(rng.randint(-8, 8))) for _ in range(n)]
         else:
             pts = [(_dy(rng), _dy(rng)) for _ in range(n)]
         b["values"] = [[q(a), q(c)] for a, c in pts]
@@ -1198,6 +1267,9 @@ def dataset_build(rng, m, inversion=False, d9b=False):
                 b["valued"] = {"values": "reconstruction", "pixel_mask": None}
             elif r < 0.45:
                 b["valued"] = {"values": [q(v) for v in vals], "pixel_mask": None}
+            elif r < 0.53:
+                # a mesh_pixel_mask that is set but masks nothing
+                b["valued"] = {"values": [q(v) for v in vals], "pixel_mask": "0" * npix}
             elif r < 0.9:
                 # values already zero under the pixel mask: masking them is the identity, so the in-place write
                 # of `values_masked` (D9b) changes nothing and every other effect stays fully checked
@@ -1212,6 +1284,33 @@ def _mask_for_dataset(rng, psf_margin=1):
         m = gen.mask_block(h, w, 1, h - 1, 1, w - 1)
         kind = "block"
     return m, kind
+
+
+def _mask_one_pixel(rng):
+    h, w = rng.randint(3, 6), rng.randint(3, 6)
+    m = gen.full(h, w, True)
+    m[rng.randint(1, h - 2)][rng.randint(1, w - 2)] = False
+    return m, "single"
+
+
+def pokeable(b):
+    """pool indexes of caller-owned ndarray buffers whose constructor is declared to COPY its argument
+    (Mask2D, Array2D, Kernel2D, `*.no_mask` of arrays, Grid2D / VectorYX2D except slim input with slim storage,
+    which keep the caller's array by reference, as do Visibilities and MapperValued.values)."""
+    if b["graph"] == "visibilities":
+        return []
+    out = [0]
+    if b["graph"] == "structure":
+        if b["struct"] == "Mask2D" or b.get("container", "ndarray") in ("list", "list_int"):
+            return out
+        if b["struct"] in ("Array2D", "Kernel2D"):
+            out.append(2)
+        elif not (b["form"] == "slim" and (not b["store_native"] or b.get("ctor") == "no_mask")):
+            out.append(2)
+        return out
+    if b.get("container", "ndarray") not in ("list", "list_int"):
+        out.append(2)
+    return out + [3, 4, 10]
 
 
 class Alphabet:
@@ -1244,7 +1343,7 @@ class Alphabet:
         return {"op": "query", "name": name, "arg": rng.choice(args) if args else ""}
 
 
-def random_history(rng, kinds, nsteps, alpha: Alphabet, focus=None):
+def random_history(rng, kinds, nsteps, alpha: Alphabet, focus=None, pokes=()):
     """random walk over the typed alphabet; `kinds` = kinds of the root pool (grows with derivations)."""
     kinds = list(kinds)
     hist = []
@@ -1252,8 +1351,12 @@ def random_history(rng, kinds, nsteps, alpha: Alphabet, focus=None):
     readable = lambda: [i for i, k in enumerate(kinds) if alpha.reads(k) or alpha.queries(k)]
     derivable = lambda: [i for i, k in enumerate(kinds) if alpha.derivs(k)]
     last_derived = None
+    pokes = list(pokes)
     for _ in range(nsteps):
         r = rng.random()
+        if pokes and rng.random() < 0.06:
+            hist.append({"op": "poke", "obj": pokes.pop(rng.randrange(len(pokes)))})
+            continue
         if last_derived is not None and r < 0.45:
             # probe the fresh derived object, preferably with a key already read on its source
             o, src = last_derived
@@ -1480,13 +1583,18 @@ class C11(PropertyCheck):
         # 1. constructor purity, exhaustive small masks
         cells = 4 if quick else 6
         for (h, w) in gen.shapes_upto(cells):
-            for m in gen.all_masks(h, w):
+            for m in gen.all_masks(h, w, min_unmasked=0):
                 for struct in ("Array2D", "Grid2D", "VectorYX2D"):
                     for form in ("slim", "native"):
                         for sn in (False, True):
                             b = struct_build(rng, struct, m, form=form, store_native=sn)
                             hist = [{"op": "read", "obj": 2, "key": "bytes"}, {"op": "read", "obj": 3, "key": "native"},
                                     {"op": "read", "obj": 2, "key": "bytes"}]
+                            pk = pokeable(b)
+                            if 2 in pk:
+                                hist += [{"op": "poke", "obj": 2}, {"op": "read", "obj": 3, "key": "array"}]
+                            hist += [{"op": "poke", "obj": 0}, {"op": "read", "obj": 1, "key": "array"},
+                                     {"op": "read", "obj": 3, "key": "native"}, {"op": "read", "obj": 3, "key": "slim"}]
                             yield {"tag": f"ctor_exh_{struct}", "kind": "history", "build": b, "history": hist}
         # 2. stale-cache patterns: every (kind, cached key, derivation)
         yield from self._pattern_cases(rng, alpha, reps=1 if quick else 4)
@@ -1497,15 +1605,19 @@ class C11(PropertyCheck):
                                  "Visibilities"])
             b = self._struct_case_build(rng, struct)
             ks = root_kinds(b)
-            hist = random_history(rng, ks, rng.randint(3, maxsteps), alpha, focus=len(ks) - 1)
+            hist = random_history(rng, ks, rng.randint(3, maxsteps), alpha, focus=len(ks) - 1, pokes=pokeable(b))
             yield {"tag": f"hist_{struct}", "kind": "history", "build": b, "history": hist}
         # 4. dataset / fit graphs
         n = 60 if quick else 400
         for i in range(n):
-            m, mk = _mask_for_dataset(rng)
+            m, mk = _mask_one_pixel(rng) if rng.random() < 0.1 else _mask_for_dataset(rng)
             b = dataset_build(rng, m, inversion=False)
+            if rng.random() < 0.2:
+                b["container"] = rng.choice(["int64", "list", "float32"])
+                if b["container"] == "int64":
+                    b["data"] = [q(rng.randint(-2, 8)) for _ in b["data"]]
             ks = root_kinds(b)
-            hist = random_history(rng, ks, rng.randint(3, maxsteps), alpha, focus=5)
+            hist = random_history(rng, ks, rng.randint(3, maxsteps), alpha, focus=5, pokes=pokeable(b))
             yield {"tag": f"hist_dataset_{mk}", "kind": "history", "build": b, "history": hist}
         # 5. inversion / mapper / valued-mapper graphs
         n = 90 if quick else 600
@@ -1513,7 +1625,7 @@ class C11(PropertyCheck):
             m, mk = _mask_for_dataset(rng)
             b = dataset_build(rng, m, inversion=True)
             ks = root_kinds(b)
-            hist = random_history(rng, ks, rng.randint(4, maxsteps), alpha, focus=9)
+            hist = random_history(rng, ks, rng.randint(4, maxsteps), alpha, focus=9, pokes=pokeable(b))
             yield {"tag": f"hist_inversion_{'wt' if b['w_tilde'] else 'map'}_{len(b['mappers'])}", "kind": "history",
                    "build": b, "history": hist}
         # 5b. a few histories in which known finding D9b is visible (kept few: each is shrunk and replayed)
@@ -1552,10 +1664,19 @@ class C11(PropertyCheck):
             b["scales"] = ["1", "1"]
             b["origin"] = ["0", "0"]
             return b
-        h, w = rng.randint(2, 7), rng.randint(2, 7)
-        m, _ = gen.random_mask(rng, h, w)
-        if not any(not v for r in m for v in r):
-            m[h // 2][w // 2] = False
+        h, w = rng.randint(1, 7), rng.randint(1, 7)
+        r = rng.random()
+        if r < 0.05:
+            m = gen.full(h, w, True)                       # no unmasked pixel at all
+        elif r < 0.12:
+            m = gen.full(h, w, True)
+            m[rng.randrange(h)][rng.randrange(w)] = False  # exactly one
+        elif r < 0.2 or min(h, w) < 2:
+            m = gen.full(h, w, False)                      # all unmasked
+        else:
+            m, _ = gen.random_mask(rng, h, w)
+            if not any(not v for r_ in m for v in r_):
+                m[h // 2][w // 2] = False
         return struct_build(rng, struct, m)
 
     def _pattern_cases(self, rng, alpha, reps):
@@ -1703,6 +1824,8 @@ class C11(PropertyCheck):
         """the effects table in the driver's format (keys are `Kind.key`)."""
         t = effects()
         keys, derivs, ctors = {}, {}, {}
+        # the caller rewriting its own buffer: an edit of that buffer's contents, nothing else depends on it
+        keys["Buffer.__caller_write__"] = {"cached": False, "cwrites": [[0, "caller_write"]]}
         for kind, spec in t["kinds"].items():
             for k, e in list(spec.get("reads", {}).items()) + list(spec.get("queries", {}).items()):
                 ent = {"cached": bool(e.get("cached", False))}
@@ -1745,7 +1868,9 @@ class C11(PropertyCheck):
         for st in case["history"]:
             o = st["obj"]
             kind = kinds[o] if o < len(kinds) else "?"
-            if st["op"] == "read":
+            if st["op"] == "poke":
+                hist.append({"op": "read", "obj": o, "key": "Buffer.__caller_write__"})
+            elif st["op"] == "read":
                 hist.append({"op": "read", "obj": o, "key": f"{kind}.{st['key']}"})
             elif st["op"] == "query":
                 hist.append({"op": "read", "obj": o, "key": f"{kind}.{st['name']}"})
@@ -1770,7 +1895,7 @@ class C11(PropertyCheck):
         for st, s in zip(case["history"], steps[n_roots:]):
             o = {"may_change": sorted({f"obj{i}" for i in s["changed"]} | {f"obj{i}" for i, k in s["vchanged"]})}
             v = s["value"]
-            if st["op"] == "derive":
+            if st["op"] in ("derive", "poke"):
                 o["value"] = None
             elif v is None:
                 o["value"] = "err:no-object"
@@ -1829,7 +1954,7 @@ class C11(PropertyCheck):
             if s["changed"]:
                 return False, f"step {i} ({st['op']} {what} on obj {st['obj']}) modified {s['changed'][:4]}"
             if st["op"] in ("read", "query"):
-                if s["value"] != s["fresh"]:
+                if s["value"] != s.get("fresh"):
                     return False, (f"step {i}: {st['op']} {what} on obj {st['obj']} reports {s['value']} but a freshly "
                                    f"built equal object reports {s['fresh']}")
                 if s.get("direct") is False:
@@ -1983,9 +2108,16 @@ def regen_effects():
     # sample graphs
     for struct in ("Array2D", "Grid2D", "VectorYX2D", "Kernel2D", "Mask2D"):
         for t in range(3):
-            b = c11.CHECK._struct_case_build(rng, struct)
-            if struct == "Grid2D": b["sub"] = 2
-            g = c11.build_graph(b)
+            while True:
+                b = c11.CHECK._struct_case_build(rng, struct)
+                if struct == "Grid2D": b["sub"] = 2
+                if "0" not in b["mask"]["bits"] or b["mask"]["h"] * b["mask"]["w"] < 4:
+                    continue  # sample objects: non-degenerate
+                try:
+                    g = c11.build_graph(b)
+                    break
+                except Exception:
+                    continue
             merge(struct, g.pool[-1])
     b = c11.CHECK._struct_case_build(rng, "Visibilities")
     merge("Visibilities", c11.build_graph(b).pool[-1])
@@ -2011,12 +2143,12 @@ def regen_effects():
         d = {k: dict(v) for k, v in base.items() if k not in drop}
         d.update(extra)
         return d
-    kinds["Array2D"]["derive"] = D({"native": {}, "slim": {}, "apply_mask": {"args": ["0", "1"]},
+    kinds["Array2D"]["derive"] = D({"native": {}, "slim": {}, "rewrap": {}, "apply_mask": {"args": ["0", "1"]},
         "trimmed": {"args": ["3x3", "1x3", "3x1"]}, "padded": {"args": ["3x3", "1x3"]},
         "resized": {"args": ["3x3", "4x6", "7x5", "2x2"]}, "zoomed": {"args": ["0", "1"]}})
-    kinds["Kernel2D"]["derive"] = D({"normalized": {}, "native": {"result": "Array2D"}, "slim": {"result": "Array2D"}},
+    kinds["Kernel2D"]["derive"] = D({"normalized": {}, "rewrap": {}, "native": {"result": "Array2D"}, "slim": {"result": "Array2D"}},
                                      drop=("slice", "mul_array"))
-    kinds["Grid2D"]["derive"] = D({"native": {}, "slim": {}, "flipped": {}, "in_radians": {},
+    kinds["Grid2D"]["derive"] = D({"native": {}, "slim": {}, "rewrap": {}, "flipped": {}, "in_radians": {},
         "subtracted_from": {"args": ["1/2,-1", "0,0"]}, "deflected": {"args": ["1/4", "-1"]},
         "padded_grid_from": {"args": ["3x3", "1x3"]}}, drop=("pow", "abs", "rsub", "mul_array"))
     kinds["VectorYX2D"]["derive"] = D({}, drop=("pow", "abs", "rsub", "mul_array", "add_self"))
